@@ -207,6 +207,15 @@ def run(ctx):
          ('a pair of channel-derived values does not keep left in slot 0 and right in slot 1 (%s): which channel lands in which column depends on more than its side' % norm_text(mixed[0]) if mixed
           else 'no (left, right) pair found in make_stereo'), construct='make_stereo keeps (left, right) slots',
          unknown=None if (pairs >= 1 or mixed) else 'how make_stereo lays out the two channels is not one of the recognised idioms (a two-element display of channel-derived values, or stores with a constant channel index)')
+  # the validity mask of the mask idiom: position p of a row is valid iff p < length of that channel (strictly): with <= every row
+  # claims one sample more than its channel has, and the scatter no longer fits / shifts the right channel by one
+  for c in ast.walk(ms.node):
+    if isinstance(c, ast.Compare) and len(c.ops) == 1 and isinstance(c.ops[0], (ast.Lt, ast.LtE)):
+      lt, rt = U.expand_locals(ms.node, c.left, at=c), U.expand_locals(ms.node, c.comparators[0], at=c)
+      if any(isinstance(x, ast.Call) and (dotted(x.func) or '').split('.')[-1] == 'arange' for x in ast.walk(lt)) and 'len(' in norm_text(rt):
+        okm = isinstance(c.ops[0], ast.Lt)
+        ctx.ob('STEREO/mask-strict', ms, c, okm, 'a position is valid iff it is below the channel length' if okm else
+               'the validity mask %s admits position == length: each channel is given one sample more than it has' % norm_text(c), construct='mask: position < channel length', definite=True)
   t = norm_text(ms.node)
   ok = 'np.array([len(%s), len(%s)])' % (l, r) in t and 'np.concatenate([%s, %s])' % (l, r) in t
   ok = ok or (rows.get(0) == {l} and rows.get(1) == {r})
